@@ -28,6 +28,7 @@ func runC06(c *core.Ctx) {
 	c.RuleDoc("R06.4", "AddMount: validate, existing directory, atomic insert")
 	c.RuleDoc("R06.5", "cross-mount rename cleanup and ordering")
 	c.RuleDoc("R06.8", "the root file system is addressed only through the route resolution")
+	c.RuleDoc("R06.10", "no path is used as the cutset of strings.Trim/TrimLeft/TrimRight")
 	c.RuleDoc("R06.9", "the cross-mount copy creates or truncates its destination")
 	c.RuleDoc("R06.7", "every capability-probing helper has a MountFS branch")
 	c.RuleDoc("R06.6", "route resolutions are asked about names that can be valid")
@@ -56,6 +57,7 @@ func runC06(c *core.Ctx) {
 		r06EveryHelperRoutes(c, p, "R06.7")
 		r06RootOnlyThroughRoutes(c, p, "R06.8")
 		r06DestinationTruncated(c, p)
+		r06NoVariableCutset(c, p, "R06.10", "mount", "", "tar", "os", "keyvalue", "cache")
 	}
 	c.Floor("R06.1", 2)
 	c.Floor("R06.2", 2)
@@ -66,6 +68,7 @@ func runC06(c *core.Ctx) {
 	c.Floor("R06.7", 15)
 	c.Floor("R06.8", 2)
 	c.Floor("R06.9", 1)
+	c.Floor("R06.10", 1)
 }
 
 // r06Longest: stores into the captured result cells inside the Range callback.
@@ -915,4 +918,32 @@ func flagConst(p *load.Program, name string) (int64, bool) {
 	}
 	v, exact := constant.Int64Val(obj.Val())
 	return v, exact
+}
+
+// r06NoVariableCutset (R06.10): strings.TrimLeft / TrimRight / Trim take a SET of characters: called with a path (a
+// non-constant string) as cutset they strip every leading character that occurs anywhere in that path — the mount
+// "ab" turns "ab/ba" into ".", the mount "a" turns "a/a/x" into "x". Prefixes are cut with TrimPrefix.
+func r06NoVariableCutset(c *core.Ctx, p *load.Program, rule string, pkgs ...string) {
+	n := 0
+	for _, rel := range pkgs {
+		for _, fn := range pkgFuncs(p, rel) {
+			ord := ordinals{}
+			ssax.Instrs(fn, func(ins ssa.Instruction) {
+				cl, ok := ins.(*ssa.Call)
+				if !ok || !(ssax.CalleeIs(cl, "strings", "TrimLeft") || ssax.CalleeIs(cl, "strings", "TrimRight") || ssax.CalleeIs(cl, "strings", "Trim")) {
+					return
+				}
+				n++
+				// a cutset built by concatenation (x + "/") is a prefix or suffix mistaken for a character set; a constant or
+				// a separator handed in as a value is a genuine set
+				_, isConcat := cl.Call.Args[1].(*ssa.BinOp)
+				key := fname(fn) + "|" + ord.next("cutset-is-not-a-concatenation")
+				c.Check(!isConcat, rule, key, p.Pos(cl.Pos()), "the cutset is a constant or a separator value, not a concatenated path",
+					fmt.Sprintf("%s passes a variable string as the CUTSET of %s: every leading character that occurs anywhere in it is stripped, not the string as a prefix — below the mount point \"ab\" the path \"ab/ba\" resolves to \".\", below \"a\" the path \"a/a/x\" to \"x\"", fname(fn), ssax.CallName(cl)))
+			})
+		}
+	}
+	if n == 0 {
+		c.OK(rule, "no-trim-with-cutset", "", "no strings.Trim/TrimLeft/TrimRight call in the analysed packages")
+	}
 }
